@@ -59,7 +59,7 @@ def jobs(tier, seed):
     # selection symbolic (arbitrary tag predicate), outcomes {pass, fail, exception}
     js.append(Job("select.mixed", "vlib.stage1:h_stage1",
                   {"shapes": [F([S(1), O(1, [(1, []), (1, [])]), R([S(1)])])],
-                   "opts": {"select": True, "stop": "sym", "out_dom": {"*": [0, 2]}}, "checks": base},
+                   "opts": {"select": True, "stop": "sym", "dry_run": "sym", "out_dom": {"*": [0, 2]}}, "checks": base},
                   reach=["C01.verdict==RunSpec"], min_paths=20, cost=60, validate=150))
     # exit code mapping through run_behave
     js.append(Job("exitcode", "vlib.stage1:h_stage1",
